@@ -13,7 +13,13 @@ use serde_json::json;
 use std::collections::BTreeMap;
 
 fn check_extrude(rng: &mut Rng, res: &mut CaseResult) {
-    let (w, h) = match rng.below(6) {
+    let (w, h) = match rng.below(40) {
+        6 => (rng.range(256, 400) as u32, rng.range(1, 3) as u32),
+        7 => (rng.range(1, 3) as u32, rng.range(256, 400) as u32),
+        8 => (*rng.pick(&[65_535u32, 65_536, 70_000]), 1),
+        9 => (1, *rng.pick(&[65_535u32, 65_536, 70_000])),
+        10 => (rng.range(256, 300) as u32, rng.range(256, 300) as u32),
+        x if x > 10 => (rng.range(1, 64) as u32, rng.range(1, 64) as u32),
         0 => (1, 1),
         1 => (1, rng.range(1, 64) as u32),
         2 => (rng.range(1, 64) as u32, 1),
@@ -126,7 +132,7 @@ fn check_mapper(rng: &mut Rng, res: &mut CaseResult) {
         }
     }
     // to_indexed_image: dimensions + row-major order
-    let (w, h) = (rng.range(1, 12) as u32, rng.range(1, 12) as u32);
+    let (w, h) = if rng.chance(1, 20) { if rng.chance(1, 2) { (rng.range(256, 400) as u32, 1) } else { (2, rng.range(256, 400) as u32) } } else { (rng.range(1, 12) as u32, rng.range(1, 12) as u32) };
     let mut img = RgbaImage::new(w, h);
     for y in 0..h {
         for x in 0..w {
